@@ -232,7 +232,8 @@ func polyPreds5(n int, x0 float64) []predEv {
 		// part_term == 0: "adjacent" when the power is within a factor 2^64 of the underflow threshold
 		lp := float64(-n-1) * math.Log2(x)
 		cmp(A, "part_term==0", lp, -1074, 64, pt == 0)
-		cmp(A, "sum==0.0", 1, 0, 0, false)
+		o, _ := safe(func() float64 { return sp.Polygamma(n, x) })
+		cmp(A, "sum==0.0", o, 0, 0x1p-1000, o == 0)
 		cmp(A, "(n-1)&1==1", float64((n-1)&1), 1, 1, (n-1)&1 == 1)
 	}
 	var imp func(x float64)
@@ -522,7 +523,16 @@ func (b *builder) polygammaOrders() {
 			why string
 		}{{lim / 4, "small-x"}, {down(lim), "small_x_limit"}, {lim, "small_x_limit"}, {0.5, "x==0.5"}, {down(0.5), "x==0.5"}, {up(0.5), "x==0.5"},
 			{1, "x==1"}, {down(1), "x==1"}, {up(1), "x==1"}, {2.5, "transition"}, {math.Round(T / 2), "transition"}, {T - 0.5, "transition-point"}, {T, "transition-point"},
-			{up(T), "transition-point"}, {T + 1, "asymptotic"}, {math.Round(1.5 * T), "asymptotic"}, {2 * T, "asymptotic"}}
+			{up(T), "transition-point"}, {2 * T, "asymptotic"}}
+		if !b.quick {
+			xs = append(xs, struct {
+				x   float64
+				why string
+			}{T + 1, "asymptotic"}, struct {
+				x   float64
+				why string
+			}{math.Round(1.5 * T), "asymptotic"})
+		}
 		if thr < lim {
 			xs = append(xs, struct {
 				x   float64
@@ -576,6 +586,28 @@ func (b *builder) polygammaOrders() {
 		x float64
 	}{{26, 0x1p39}, {26, 0x1p40}, {26, 0x1.8p39}, {20, 0x1p51}, {20, 0x1p52}, {16, 0x1p63}, {16, 0x1p64}} {
 		b.polySeries(c.n, c.x, "power-underflow", maxK)
+	}
+	// the leading term underflows: 0 specified (|psi_100(1e10)| = 99!/1e1000)
+	for _, c := range []struct {
+		n int
+		x float64
+	}{{100, 1e10}, {101, 1e10}} {
+		o, p := safe(func() float64 { return sp.Polygamma(c.n, c.x) })
+		an := &Anchor{Fam: "polygamma5", Label: "r5:underflow", Fn: "PolygammaUnderflow", K: c.n, x: c.x, ref: 0, obs: o,
+			Desc: fmt.Sprintf("Polygamma(%d, %v) = 0 (the value underflows)", c.n, c.x), Bnd: true}
+		b.exactAnchor(an, !p && o == 0)
+	}
+	// Factorial on both sides of the table length (factorialMax = 21)
+	for _, k := range []int{19, 20, 21, 22, 25} {
+		o := sp.Factorial(k)
+		an := &Anchor{Fam: "factorial5", Label: "r5:factorial", Fn: "Factorial", K: k, x: float64(k), obs: o, ref: fact(k), Desc: fmt.Sprintf("Factorial(%d)", k), Bnd: true}
+		an.tol = 0
+		if k > 22 {
+			an.tol = 2 * ulp * o
+		}
+		an.tac = "unf4; interval with (i_prec 120)"
+		an.goal = fmt.Sprintf("Rabs (IZR (zfact %s) - %s) <= %s", nat(k), R(o), R(an.tol))
+		b.add(an)
 	}
 	// order < 0: panic specified
 	_, p := safe(func() float64 { return sp.Polygamma(-1, 1.5) })
